@@ -55,6 +55,7 @@ type globalTables struct {
 	staticAxioms  map[string][]string // heap name -> axioms on the base heap
 	mutableTypes  map[string]string   // struct key -> reason (some function stores to a field of this type)
 	typeSweepDone bool
+	nboxes        int // static boxes of interface-typed table entries
 }
 
 const staticRefBase = 0x10000
@@ -341,6 +342,20 @@ func (ie *initEval) zeroNested(t types.Type) []string {
 
 func (ie *initEval) eval(x ast.Expr, t types.Type) []string {
 	info := ie.pkg.TypesInfo
+	if _, isIface := t.Underlying().(*types.Interface); isIface {
+		// a value of a concrete static type stored in an interface-typed slot of a table (types.goinvalid):
+		// the dynamic type is the expression's static type; the box is a static object of its own whose
+		// content is left unspecified (only the dynamic type is known to the contracts).
+		if tv, ok := info.Types[x]; ok && tv.Type != nil && !tv.IsNil() {
+			if _, srcIface := tv.Type.Underlying().(*types.Interface); !srcIface {
+				if _, isPtr := tv.Type.Underlying().(*types.Pointer); !isPtr {
+					st := types.Default(tv.Type)
+					ie.w.gt.nboxes++
+					return []string{bvLit(64, uint64(ie.w.tags.tag(st))), bvLit(64, uint64(0x200000+ie.w.gt.nboxes))}
+				}
+			}
+		}
+	}
 	if tv, ok := info.Types[x]; ok && tv.Value != nil {
 		return ie.vc.constVal(t, tv.Value).L
 	}
